@@ -7,14 +7,14 @@
 //@ pre-hook k5_table
 //@ default-clause C13.codes.nopanic
 //@ harness k5_codes_1000 tier=quick    kind=complete fn=src/errorcodes.rs::{ErrorKind::from(u16),ErrorKind::sqlstate}[1000..1100)
-//@ harness k5_codes_1100 tier=thorough kind=complete fn=src/errorcodes.rs::{ErrorKind::from(u16),ErrorKind::sqlstate}[1100..1200)
-//@ harness k5_codes_1200 tier=thorough kind=complete fn=src/errorcodes.rs::{ErrorKind::from(u16),ErrorKind::sqlstate}[1200..1300)
-//@ harness k5_codes_1300 tier=thorough kind=complete fn=src/errorcodes.rs::{ErrorKind::from(u16),ErrorKind::sqlstate}[1300..1400)
-//@ harness k5_codes_1400 tier=thorough kind=complete fn=src/errorcodes.rs::{ErrorKind::from(u16),ErrorKind::sqlstate}[1400..1500)
-//@ harness k5_codes_1500 tier=thorough kind=complete fn=src/errorcodes.rs::{ErrorKind::from(u16),ErrorKind::sqlstate}[1500..1600)
-//@ harness k5_codes_1600 tier=thorough kind=complete fn=src/errorcodes.rs::{ErrorKind::from(u16),ErrorKind::sqlstate}[1600..1700)
-//@ harness k5_codes_1700 tier=thorough kind=complete fn=src/errorcodes.rs::{ErrorKind::from(u16),ErrorKind::sqlstate}[1700..1800)
-//@ harness k5_codes_1800 tier=thorough kind=complete fn=src/errorcodes.rs::{ErrorKind::from(u16),ErrorKind::sqlstate}[1800..65536)
+//@ harness k5_codes_1100 tier=quick    kind=complete fn=src/errorcodes.rs::{ErrorKind::from(u16),ErrorKind::sqlstate}[1100..1200)
+//@ harness k5_codes_1200 tier=quick    kind=complete fn=src/errorcodes.rs::{ErrorKind::from(u16),ErrorKind::sqlstate}[1200..1300)
+//@ harness k5_codes_1300 tier=quick    kind=complete fn=src/errorcodes.rs::{ErrorKind::from(u16),ErrorKind::sqlstate}[1300..1400)
+//@ harness k5_codes_1400 tier=quick    kind=complete fn=src/errorcodes.rs::{ErrorKind::from(u16),ErrorKind::sqlstate}[1400..1500)
+//@ harness k5_codes_1500 tier=quick    kind=complete fn=src/errorcodes.rs::{ErrorKind::from(u16),ErrorKind::sqlstate}[1500..1600)
+//@ harness k5_codes_1600 tier=quick    kind=complete fn=src/errorcodes.rs::{ErrorKind::from(u16),ErrorKind::sqlstate}[1600..1700)
+//@ harness k5_codes_1700 tier=quick    kind=complete fn=src/errorcodes.rs::{ErrorKind::from(u16),ErrorKind::sqlstate}[1700..1800)
+//@ harness k5_codes_1800 tier=quick    kind=complete fn=src/errorcodes.rs::{ErrorKind::from(u16),ErrorKind::sqlstate}[1800..65536)
 //@ harness k5_emitted    tier=quick    kind=complete fn=src/errorcodes.rs::ErrorKind::sqlstate(kinds-the-library-emits)
 //@ clause C13.codes.roundtrip for every defined code d: ErrorKind::from(d) as u16 == d (discriminants are unique by the language, so kind -> code -> kind is lossless too)
 //@ clause C13.codes.sqlstate  sqlstate() is five bytes from [0-9A-Z] for every defined kind
